@@ -105,6 +105,9 @@ def build_objects(system: Any, names: Sequence[str]) -> Dict[str, Any]:
             o = model.Module(system, full)
         else:
             parent_name, _, last = full.rpartition(".")
+            if full in OWN_NAMES:
+                last = OWN_NAMES[full]
+                parent_name = full[:-len(last) - 1]
             parent = get(parent_name)
             cls = model.Class if isinstance(parent, model.Module) else model.Function
             o = cls(system, last, parent)
@@ -274,7 +277,15 @@ def part_match(ctx: Ctx, rng: random.Random) -> int:
 
 
 # ---------------------------------------------------------------------- part 2: precedence of rules
-RULE_NAMES = ["a", "_a", "a.c", "a._c", "a.c._m", "a.c.__d__", "a.c.__p", "b.c", "b._c.m", "_a.c.m"]
+RULE_NAMES = ["a", "_a", "a.c", "a._c", "a.c._m", "a.c.__d__", "a.c.__p", "b.c", "b._c.m", "_a.c.m",
+              "a.c._v.setter", "a.c.v.deleter"]
+# objects whose OWN name has a dot in it (the builder names the setter of property _v "_v.setter")
+OWN_NAMES = {"a.c._v.setter": "_v.setter", "a.c.v.deleter": "v.deleter"}
+
+
+def name_json(full: str, own: str | None = None) -> Dict[str, Any]:
+    own = own if own is not None else OWN_NAMES.get(full, full.rpartition(".")[2])
+    return {"f": list(full), "o": list(own)}
 # the 8th is a pattern made of a set only (no * or ?): it must still be treated as a pattern (a.[bc] matches a.c)
 MATCH_STRINGS = ["a.c", "a.*", "**", "*._c", "**.__*__", "a.c._m", "?.c", "a.[bc]", "**.m", "[!b].c._m", "a.c.*"]
 
@@ -287,7 +298,7 @@ def part_rules(ctx: Ctx, rng: random.Random) -> int:
     rows = []
     for i, rl in enumerate(lists):
         rows.append({"rules": rules_json(rl), "ns": 1, "res": real_rules_row(rl, RULE_NAMES, rng)})
-    table = {"namesets": [[list(n) for n in RULE_NAMES]], "universe": rules_json(universe), "maxrules": maxrules,
+    table = {"namesets": [[name_json(n) for n in RULE_NAMES]], "universe": rules_json(universe), "maxrules": maxrules,
              "rows": rows}
     reports = run_table(ctx, "rules", table, exhaustive=True, tag="exhaustive")
     judge_rules_reports(ctx, reports, [RULE_NAMES], "exhaustive")
@@ -302,7 +313,7 @@ def part_rules(ctx: Ctx, rng: random.Random) -> int:
     small = [(lv, p) for p in ("a.c", "a.*", "**._m") for lv in LEVELS]
     lists3 = [t for m in range(4) for t in itertools.product(small, repeat=m)]
     rows = [{"rules": rules_json(rl), "ns": 1, "res": real_rules_row(rl, RULE_NAMES, rng)} for rl in lists3]
-    table = {"namesets": [[list(n) for n in RULE_NAMES]], "universe": rules_json(small), "maxrules": 3, "rows": rows}
+    table = {"namesets": [[name_json(n) for n in RULE_NAMES]], "universe": rules_json(small), "maxrules": 3, "rows": rows}
     reports = run_table(ctx, "rules", table, exhaustive=True, tag="repeat3")
     judge_rules_reports(ctx, reports, [RULE_NAMES], "repeat3")
     ctx.traces += len(rows)
@@ -326,7 +337,7 @@ def part_rules(ctx: Ctx, rng: random.Random) -> int:
                 pat = "".join(rng.choice(alpha) for _ in range(rng.randint(1, 6)))
             rl.append((rng.choice(LEVELS), pat))
         rows.append({"rules": rules_json(rl), "ns": 1, "res": real_rules_row(rl, names2, rng)})
-    table = {"namesets": [[list(n) for n in names2]], "universe": [], "maxrules": 0, "rows": rows}
+    table = {"namesets": [[name_json(n) for n in names2]], "universe": [], "maxrules": 0, "rows": rows}
     reports = run_table(ctx, "rules", table, exhaustive=False, tag="sampled")
     judge_rules_reports(ctx, reports, [names2], "sampled")
     ctx.traces += len(rows)
@@ -341,7 +352,7 @@ def part_rules(ctx: Ctx, rng: random.Random) -> int:
     k = RULE_NAMES.index("a.c")
     good = res[k]
     res[k] = "HIDDEN" if good != "HIDDEN" else "PUBLIC"
-    table = {"namesets": [[list(n) for n in RULE_NAMES]], "universe": [], "maxrules": 0,
+    table = {"namesets": [[name_json(n) for n in RULE_NAMES]], "universe": [], "maxrules": 0,
              "rows": [{"rules": rules_json(rl), "ns": 1, "res": res}]}
     reports = run_table(ctx, "rules", table, exhaustive=False, tag="negctl", count=False)
     okc = len(reports) == 1 and not reports[0]["real_is_ref"] and reports[0]["ref"][k] == good
@@ -353,7 +364,8 @@ def part_rules(ctx: Ctx, rng: random.Random) -> int:
 
 # -------------------------------------------------------- part 3: a real build, recorded, judged by TLC
 PKG_INIT = "from ._impl import c, _h\nfrom . import _impl\n__all__ = ['c', '_h']\n"
-PKG_IMPL = ("class c:\n    def _m(self): pass\n    def __d__(self): pass\n    class _n:\n        x = 1\n"
+PKG_IMPL = ("class c:\n    @property\n    def _v(self): return 1\n    @_v.setter\n    def _v(self, x): pass\n"
+            "    @property\n    def w(self): return 1\n    @w.deleter\n    def w(self): pass\n    def _m(self): pass\n    def __d__(self): pass\n    class _n:\n        x = 1\n"
             "class _h:\n    def m(self): pass\ndef f(): pass\n_v = 1\n")
 BUILD_RULES: List[List[Tuple[str, str]]] = [
     [],
@@ -362,6 +374,9 @@ BUILD_RULES: List[List[Tuple[str, str]]] = [
     [("PUBLIC", "**._*"), ("PRIVATE", "pkg._h"), ("HIDDEN", "pkg.?")],
     [("HIDDEN", "pkg._impl.c"), ("PRIVATE", "pkg.c._m"), ("PUBLIC", "pkg.c.*")],
 ]
+
+
+owns: Dict[str, str] = {}          # qualified name -> own name, as seen in the last recorded build
 
 
 def observe_build(ctx: Ctx, rules: List[Tuple[str, str]], rng: random.Random) -> Tuple[List[str], List[str], int]:
@@ -377,7 +392,7 @@ def observe_build(ctx: Ctx, rules: List[Tuple[str, str]], rng: random.Random) ->
 
     def pc(self: Any, ob: Any) -> Any:
         r = orig_pc(self, ob)
-        log.append((ob.fullName(), r.name))
+        log.append((ob.fullName(), r.name, ob.name))
         return r
 
     def subtree(o: Any) -> List[Any]:
@@ -405,19 +420,23 @@ def observe_build(ctx: Ctx, rules: List[Tuple[str, str]], rng: random.Random) ->
                 o.isVisible
     finally:
         model.System.privacyClass, model.Documentable.reparent = orig_pc, orig_rep
-    return [n for n, _ in log], [v for _, v in log], moved["n"]
+    owns.clear()
+    owns.update({n: own for n, _, own in log})
+    return [n for n, _, _ in log], [v for _, v, _ in log], moved["n"]
 
 
 def part_build(ctx: Ctx, rng: random.Random) -> int:
     rows, namesets, moves = [], [], 0
+    ns_json: List[List[Dict[str, Any]]] = []
     for rules in BUILD_RULES:
         names, res, mv = observe_build(ctx, rules, rng)
         moves += mv
         namesets.append(names)
+        ns_json.append([name_json(n, owns[n]) for n in names])
         rows.append({"rules": rules_json(rules), "ns": len(namesets), "res": res})
     if moves < 2 * len(BUILD_RULES):
         raise MachineryError(f"the recorded builds reparented {moves} objects, expected {2 * len(BUILD_RULES)}")
-    table = {"namesets": [[list(n) for n in ns] for ns in namesets], "universe": [], "maxrules": 0, "rows": rows}
+    table = {"namesets": ns_json, "universe": [], "maxrules": 0, "rows": rows}
     reports = run_table(ctx, "rules", table, exhaustive=False, tag="build")
     judge_rules_reports(ctx, reports, namesets, "real-build")
     ctx.traces += len(rows)
@@ -598,7 +617,6 @@ SYS_CFG = """SPECIFICATION Spec
 CONSTANTS MaxSystems = {ms}
           MaxSteps = {steps}
           Sharing = "{sharing}"
-VIEW View
 CONSTRAINT Bound
 {emit}
 INVARIANT OwnRulesOnly
@@ -608,14 +626,14 @@ INVARIANT OwnRulesOnly
 def replay_systems(hist: List[Dict[str, Any]]) -> List[Dict[str, Any]]:
     """One behaviour of PrivacySystems.tla with real Systems, in a forked child (Systems of other behaviours, and of the
     rest of the check, are not in its past). Returns the observed answer of every query step."""
+    from pydoctor import model                    # imported in the parent: the children only fork
+    from pydoctor.options import Options
+    from pydoctor.utils import parse_privacy_tuple
     rd, wr = os.pipe()
     pid = os.fork()
     if pid == 0:
         try:
             os.close(rd)
-            from pydoctor import model
-            from pydoctor.options import Options
-            from pydoctor.utils import parse_privacy_tuple
             systems: List[Any] = []
             objs: List[Dict[str, Any]] = []
             out = []
@@ -660,11 +678,14 @@ def show_systems(hist: List[Dict[str, Any]]) -> List[Any]:
 
 def part_systems(ctx: Ctx) -> int:
     ms, steps = (2, 4) if ctx.quick else (3, 5)
-    r = ctx.tlc("PrivacySystems", SYS_CFG.format(ms=ms, steps=steps, sharing="none", emit="ACTION_CONSTRAINT EmitEdge"),
+    r = ctx.tlc("PrivacySystems", SYS_CFG.format(ms=ms, steps=steps, sharing="none", emit="CONSTRAINT Emit"),
                 workers=1, timeout=900)
     if r.errors or r.violated or r.rc != 0:
         raise MachineryError(f"TLC failed on PrivacySystems: {r.errors[:3]} {r.violated} rc={r.rc}")
-    recs = [x for x in r.printed if isinstance(x, dict) and "h" in x and any(st["op"] == "query" for st in x["h"])]
+    uniq = {json.dumps(show_systems(x["h"])): x for x in r.printed if isinstance(x, dict) and "h" in x}
+    # a history is judged at every query step, so one that is a prefix of another printed history need not be run alone
+    keys = sorted(uniq)
+    recs = [uniq[k] for k in keys if not any(o != k and o.startswith(k[:-1] + ",") for o in keys)]
     if not recs:
         raise MachineryError("PrivacySystems emitted no behaviour with a query")
     nontrivial = 0
@@ -683,23 +704,29 @@ def part_systems(ctx: Ctx) -> int:
                     ctx.drift_note({"kind": "systems", "history": show_systems(rec["h"]), **x})
         if n == len(recs) - 1:
             sample(ctx, {"kind": "systems", "history": show_systems(rec["h"]), "answers": [x["observed"] for x in res]})
-    ctx.extra["systems_machine"] = {"MaxSystems": ms, "MaxSteps": steps, "behaviours_replayed_each_in_a_forked_child": len(recs),
+    ctx.extra["systems_machine"] = {"MaxSystems": ms, "MaxSteps": steps, "histories_ending_in_a_query_each_replayed_in_a_forked_child": len(recs),
                                     "with_two_or_more_systems": nontrivial}
     r2 = ctx.tlc("PrivacySystems", SYS_CFG.format(ms=2, steps=4, sharing="defaultList", emit=""), workers=1, count=False, timeout=600)
     okc = "OwnRulesOnly" in r2.violated
     ctx.extra.setdefault("negative_control", {})["shared_default_rule_list_violates_model_invariant"] = okc
     if not okc:
         raise MachineryError("negative control (default rule list shared between Systems) was not rejected by TLC")
+    r3 = ctx.tlc("PrivacySystems", SYS_CFG.format(ms=2, steps=4, sharing="classCache", emit=""), workers=1, count=False, timeout=600)
+    okc = "OwnRulesOnly" in r3.violated
+    ctx.extra["negative_control"]["one_answer_cache_for_all_live_systems_violates_model_invariant"] = okc
+    if not okc:
+        raise MachineryError("negative control (one answer cache shared by all live Systems) was not rejected by TLC")
     return nontrivial
 
 
 # -------------------------------------------------------------------------------------------- check
 def run(ctx: Ctx) -> int:
     rng = random.Random(ctx.seed)
+    n5 = part_systems(ctx)            # first: forks are cheap while the process is small
     n1 = part_match(ctx, rng)
     n2 = part_rules(ctx, rng)
     n3 = part_build(ctx, rng)
-    n4 = part_cache(ctx) + part_systems(ctx)
+    n4 = part_cache(ctx) + n5
     ctx.extra.pop("_sampled", None)
     ctx.exhaustive = True
     ctx.assumptions += [
